@@ -193,6 +193,41 @@ static void exec(const Plan* p) {
           memcpy(m, t.s.wire, t.s.wire_size); m[at] ^= (uint8_t)(1 << bit); ZSTD_DCtx_reset(d, ZSTD_reset_session_only);
           check_mutation(&t, d, m, t.s.wire_size, out, outcap, "bit flip", at); t.flips++; }
       sim_probe_n("c09.bit_flips", t.flips); sim_probe_n("c09.mutations_still_accepted_consistently", t.accepted_ok); free(m); }
+    /* (E) the header lies about the content size: Frame_Content_Size rewritten by +1 / -1 / +4096 in each frame that carries it.
+     *     No decode path may report the frame complete: one-shot, streaming in pieces (no single-pass shortcut), buffer-less. */
+    { uint8_t* m = (uint8_t*)malloc(t.s.wire_size + 1); size_t fstart = 0; int fi;
+      for (fi = 0; fi < t.nfe; fi++) {
+          size_t const fend = t.frame_ends[fi]; FwFrame fw;
+          if (!t.frame_skippable[fi] && fw_parse(t.s.wire + fstart, fend - fstart, t.magicless, &fw) == 0) {
+              int const width = fw.fcs_flag == 0 ? (fw.single_segment ? 1 : 0) : fw.fcs_flag == 1 ? 2 : fw.fcs_flag == 2 ? 4 : 8; static const long long deltas[3] = { 1, -1, 4096 }; int di;
+              for (di = 0; di < 3 && width; di++) {
+                  unsigned long long const nv = fw.fcs + (unsigned long long)deltas[di]; unsigned long long stored; size_t const at = fstart + fw.header_size - (size_t)width; int b; DecResult dr; Plan dp;
+                  if (deltas[di] < 0 && fw.fcs == 0) continue;
+                  if (width == 1 && nv > 255) continue; if (width == 2 && (nv < 256 || nv > 65535 + 256)) continue; if (width == 4 && nv > 0xFFFFFFFFull) continue;
+                  stored = width == 2 ? nv - 256 : nv;
+                  memcpy(m, t.s.wire, t.s.wire_size); for (b = 0; b < width; b++) m[at + (size_t)b] = (uint8_t)(stored >> (8 * b));
+                  ZSTD_DCtx_reset(d, ZSTD_reset_session_only);
+                  r = ZSTD_decompressDCtx(d, out, outcap, m, t.s.wire_size);
+                  if (!ZSTD_isError(r)) sim_violation("size_lie_accepted", "frame %d declares %llu bytes instead of %llu: one-shot decode succeeds", fi, nv, (unsigned long long)fw.fcs);
+                  ZSTD_DCtx_reset(d, ZSTD_reset_session_only);
+                  plan_init(&dp, "x", 1); plan_set(&dp, "dfin_in", 1 + (int64_t)((fi * 37 + di * 11) % 900)); plan_set(&dp, "dfin_out", 1 + (int64_t)((fi * 53 + di * 7) % 3000));
+                  sess_run_dhist(&dp, d, m, t.s.wire_size, t.magicless, 0, &dr); plan_free(&dp);
+                  if (!dr.err && dr.consumed == t.s.wire_size && dr.frames_completed >= t.nfe - 0 - (int)0) { int nz = 0, q; for (q = 0; q < t.nfe; q++) nz += !t.frame_skippable[q]; if (dr.frames_completed >= t.nfe) sim_violation("size_lie_accepted", "frame %d declares %llu bytes instead of %llu: streaming decode in pieces reports every frame complete", fi, nv, (unsigned long long)fw.fcs); (void)nz; }
+                  dec_result_free(&dr);
+                  if (t.nfe == 1 && !t.magicless) {   /* buffer-less */
+                      ZSTD_DCtx* bd = ZSTD_createDCtx_advanced(sess_cmem()); size_t pos = 0, op = 0; int complete = 0;
+                      if (t.s.dict) ZSTD_decompressBegin_usingDict(bd, t.s.dict, t.s.dict_size); else ZSTD_decompressBegin(bd);
+                      for (;;) { size_t const want = ZSTD_nextSrcSizeToDecompress(bd); size_t rr; if (want == 0) { complete = 1; break; } if (want > t.s.wire_size - pos) break; rr = ZSTD_decompressContinue(bd, out + op, outcap - op, m + pos, want); if (ZSTD_isError(rr)) break; pos += want; op += rr; }
+                      if (complete) sim_violation("size_lie_accepted", "frame declares %llu bytes instead of %llu: buffer-less decode reports the frame complete after regenerating %zu bytes", nv, (unsigned long long)fw.fcs, op);
+                      ZSTD_freeDCtx(bd);
+                  }
+                  sim_probe("c09.header_size_lies");
+              }
+              fw_free(&fw);
+          }
+          fstart = fend;
+      }
+      free(m); }
     /* (D) pledged source size lies */
     { size_t const n = t.s.in_size; unsigned long long lies[5]; int nl = 0, i; uint8_t* dst = (uint8_t*)malloc(ZSTD_compressBound(n) + 64);
       if (n > 0) lies[nl++] = 0; if (n > 0) lies[nl++] = n - 1; lies[nl++] = n + 1; lies[nl++] = 2 * (unsigned long long)n + 7;
